@@ -22,8 +22,8 @@ nget    read  box.next          (at `while self.next.next is None`, the re-check
                                  lock, and `self.next = box.next`)
 nset    self.next.next = box    (link the new box BEFORE putting it into the window)
 bacq / brel   `with box.lock:`
-inc     box.n += 1
-ncmp    read  box.n             (the test `box.n == n_forks`, a line of its own)
+ncmp    read  box.n             (the read half of `box.n += 1`, and the test `box.n == n_forks`)
+inc     write box.n             (the write half of `box.n += 1`: the value read, plus one)
 get     buffer.get()            (the last fork to consume a box pops the window)
 recv / exc / stop   `__next__` returned an element / raised the source's exception / raised
                     StopIteration to the consumer
@@ -43,9 +43,9 @@ Every nondeterministic choice is the action label (which fork moves).  Ghost fie
 (boxes a fork has counted), `out`, `fin`, `endPulls`.
 
 Assumed (trusted base): `queue.Queue(bs)` is a FIFO that blocks `put` at `bs` items;
-`threading.Lock` is a mutex whose timed acquire returns False only while it is held; one source
-line of `__next__` is atomic w.r.t. the other forks (line-level preemption, as the property
-quantifies); the consumer stops calling `next` after the first StopIteration/exception.
+`threading.Lock` is a mutex whose timed acquire returns False only while it is held; a single
+read or write of an attribute is atomic (no atomicity of whole source lines is assumed: every
+action is ONE shared access, also inside `box.n += 1`); the consumer stops calling `next` after the first StopIteration/exception.
 -/
 namespace Tee
 
@@ -62,7 +62,7 @@ inductive Fin where
 inductive Pc where
   | idle | chkHead | hLoop | hAcq | hChk | hPull | hPut | hSet | hRel | hRelStop | hNext
   | wLoop | wAcq | wChk | wPull | wLink | wPut | wRel
-  | bAcq | bInc | bCmp | bGet | bRel | adv
+  | bAcq | bInc | bIncW | bCmp | bGet | bRel | adv
   | ret (j : Nat) | retExc | retStop | done
   deriving DecidableEq, Repr
 
@@ -71,6 +71,7 @@ structure Fork where
   cur : Option Nat     -- `self.next`: the box this fork will consume next
   st : Bool            -- `self._state == 1`
   inc : Nat            -- ghost: number of boxes this fork has counted (`box.n += 1`)
+  tmp : Nat            -- the value of `box.n` read by `box.n += 1` (between its read and its write)
   out : List Nat       -- ghost: elements handed to the consumer, oldest first
   fin : Option Fin     -- ghost: how the fork ended
   deriving DecidableEq, Repr
@@ -97,7 +98,7 @@ structure Act where
   k : Kind
   deriving DecidableEq, Repr
 
-def fork0 : Fork := { pc := .idle, cur := none, st := false, inc := 0, out := [], fin := none }
+def fork0 : Fork := { pc := .idle, cur := none, st := false, inc := 0, tmp := 0, out := [], fin := none }
 
 def init : State :=
   { forks := fun _ => fork0, pulled := 0, raised := false, endPulls := 0, boxes := 0, linked := 0,
@@ -108,7 +109,7 @@ def isExc (c : Cfg) (j : Nat) : Bool := decide (c.len ≤ j)
 
 /-- fork `fk` is inside `with box.lock:` of box `j` -/
 def holdsBox (fk : Fork) (j : Nat) : Bool :=
-  fk.cur == some j && (fk.pc == .bInc || fk.pc == .bCmp || fk.pc == .bGet || fk.pc == .bRel)
+  fk.cur == some j && (fk.pc == .bInc || fk.pc == .bIncW || fk.pc == .bCmp || fk.pc == .bGet || fk.pc == .bRel)
 
 /-- no fork other than `f` is inside `with box.lock:` of box `j` -/
 def boxFree (c : Cfg) (s : State) (f j : Nat) : Bool :=
@@ -207,12 +208,13 @@ def stepF (c : Cfg) (s : State) (f : Nat) (fk : Fork) : Kind → Option State
     | _, _ => none
   | .inc =>
     match fk.cur, fk.pc with
-    | some j, .bInc =>
+    | some j, .bIncW =>
       some { setFork s f { fk with pc := .bCmp, inc := fk.inc + 1 } with
-             cnt := fun i => if i = j then s.cnt j + 1 else s.cnt i }
+             cnt := fun i => if i = j then fk.tmp + 1 else s.cnt i }
     | _, _ => none
   | .ncmp =>
     match fk.cur, fk.pc with
+    | some j, .bInc => some (setFork s f { fk with pc := .bIncW, tmp := s.cnt j })
     | some j, .bCmp => some (setFork s f { fk with pc := if s.cnt j = c.n then .bGet else .bRel })
     | _, _ => none
   | .get =>
